@@ -47,6 +47,7 @@ class Ctx:
         self.exhaustive = False
         self.extra = {}
         self._bins = {}
+        self._n = 0
 
     @property
     def thorough(self):
@@ -191,7 +192,8 @@ class Ctx:
 
     # ---------------------------------------------------------------- TLC
     def _tlc(self, module, cfg, env, workers, timeout, java_opts=None, heap=None, extra=()):
-        md = self.path("md-%s-%d" % (module, len(self.steps)))
+        self._n += 1
+        md = self.path("md-%s-%d" % (module, self._n))
         e = dict(os.environ)
         e.update({k: str(v) for k, v in env.items()})
         e["JAVA_TOOL_OPTIONS"] = java_opts or "-Xss512m"
@@ -241,7 +243,8 @@ class Ctx:
 
     def validate(self, module, trace, props, cfg=None, timeout=1200, label=None, heap=None):
         """impl -> spec: check a recorded trace against the trace specification."""
-        result = self.path("result-%s-%d.json" % (label or module, len(self.steps)))
+        self._n += 1
+        result = self.path("result-%s-%d.json" % (label or module, self._n))
         env = {"TRACE": trace, "RESULT": result}
         res = self._tlc(module, cfg or module + ".cfg", env, 1, timeout, java_opts=JAVA_TRACE)
         out = res["out"]
@@ -278,6 +281,14 @@ class Ctx:
                 first = [json.loads(next(f)) for _ in range(min(2, r["n"]))]
             self.sample({"validated_events": first})
         return r
+
+    def validate_many(self, jobs, timeout=2400, workers=4):
+        """validate several traces concurrently (each TLC trace run is single-threaded);
+        jobs: list of (module, trace, props, label)"""
+        from concurrent.futures import ThreadPoolExecutor
+        with ThreadPoolExecutor(max_workers=workers) as ex:
+            futs = [ex.submit(self.validate, m, t, p, None, timeout, l) for (m, t, p, l) in jobs]
+            return [f.result() for f in futs]
 
     # ---------------------------------------------------------------- finish
     def finish(self, level="model_checking", rule="", trusted=None):
